@@ -298,9 +298,15 @@ def evaluate__treat_expression(self: XPathToken, context: ta.ContextType = None)
         for _ in self[0].select(context):
             raise self.error('XPDY0050')
     elif self[1].label in ('kind test', 'sequence type', 'function test'):
+        if context is None:
+            raise self.missing_context()
+
+        test_context = copy(context)
+        test_context.axis = 'self'
         for position, item in enumerate(self[0].select(context)):
-            result = self[1].evaluate(context)
-            if not result and isinstance(result, list):
+            test_context.item = item
+            result = self[1].evaluate(test_context)
+            if isinstance(result, list) and (not result or result[0] is not item):
                 raise self.error('XPDY0050')
             elif position and occurs in ('', '?'):
                 raise self.error('XPDY0050', "more than one item in sequence")
